@@ -5,15 +5,23 @@ import Driver.Conn
 import Driver.C13
 import Driver.C14
 import Driver.C12
+import Driver.Hand
 open Driver
 
 def dispatch (line : String) : Verdict :=
   let toks := splitTokens line
   let (l, r) := splitBar toks
   match l with
+  | "C06" :: "hand" :: args => handVerdict "C06" ("hand" :: args) r
   | "C06" :: args => c06 args r
   | "C07" :: args => c07 args r
   | "C12" :: args => c12 args r
+  | "C20" :: args => handVerdict "C20" args r
+  | "C08" :: args => handVerdict "C08" args r
+  | "C09" :: args => handVerdict "C09" args r
+  | "C10" :: args => handVerdict "C10" args r
+  | "C11" :: args => handVerdict "C11" args r
+  | "C01" :: args => handVerdict "C01" args r
   | "C13" :: args => c13 args r
   | "C14" :: args => c14 args r
   | _ => vBad line
